@@ -200,14 +200,114 @@ def script_query(propset, script, n, D, root, mode=1, J=None, checks="func", tim
                  witness=witness, arch=arch, group="h_script.p%d" % propset)
 
 
+def shape_script_query(propset, node, script, tag, root, D=None, extra=None, timeout=600, checks="func"):
+    from . import shapes
+    b, m = shapes.skeleton(node)
+    n = len(b)
+    D = D or max(2, node.depth_obj() + (1 if root == 2 else 0))
+    q = script_query(propset, script, n, D, root, mode=1, J=None, checks=checks, timeout=timeout,
+                     extra=dict({"SK_LEN": n, "SK_BYTES": ",".join(str(x) for x in b), "SK_MASK": ",".join(str(x) for x in m)},
+                                **(extra or {})))
+    q.name = "shape.p%d.%s.%s.%s" % (propset, node.label(), tag, "-".join(script))
+    q.array_fs = True
+    q.mem_gb = 1.5
+    q.tags.update({"shape": node.label(), "family": "H-SHAPE", "variant": tag,
+                   "symbolic": "payload bytes (names, integers, doubles, string/bytes content)"})
+    q.group = "h_script.shape.p%d" % propset
+    return q
+
+
+# ---------------------------------------------------------------------------------------------
+# shape helpers
+def shapes_upto(root, T, scalars=("T", "S1"), max_nest=3):
+    from . import shapes
+    return shapes.gen_shapes(root, T, scalars, max_nest)
+
+
+def token_nodes():
+    """single-value documents for every token kind / width (payload symbolic)"""
+    from .shapes import Node
+    vals = ["T", "F", "I1", "I2", "I4", "I8", "D", "S0", "S1", "S2", "S3", "B0", "B1", "B2", "B3"]
+    out = []
+    for v in vals:
+        out.append((1, Node("O", [Node(v)], [1])))
+        out.append((2, Node("A", [Node(v)], [])))
+    # nested position + sibling after
+    out.append((1, Node("O", [Node("O", [Node("I2")], [0]), Node("I4")], [0, 1])))
+    out.append((2, Node("A", [Node("A", [Node("I8")], []), Node("S2")], [])))
+    return out
+
+
+def big_token_nodes():
+    from .shapes import Node
+    out = []
+    for v in ("S127", "S128", "B127", "B128"):
+        out.append((2, Node("A", [Node(v)], [])))
+        out.append((1, Node("O", [Node(v)], [1])))
+    out.append((1, Node("O", [Node("T")], [127])))
+    out.append((1, Node("O", [Node("T")], [128])))
+    return out
+
+
+def shape_variant_queries(propset, root, T, variants=None, scalars=("T", "S1"), max_nest=3, limit=None, extra=None):
+    from . import shapes
+    qs = []
+    for node in shapes.gen_shapes(root, T, scalars, max_nest):
+        for tag, s in shapes.variant_scripts(node):
+            kind = tag.split("@")[0]
+            if variants and kind not in variants:
+                continue
+            qs.append(shape_script_query(propset, node, s, tag, root, extra=extra))
+    return qs[:limit] if limit else qs
+
+
+def shape_doc_query(prop, mode, node, root, D=None, unmask=(), name=None, timeout=900, checks="func"):
+    from . import shapes
+    b, m = shapes.skeleton(node)
+    m = list(m)
+    for i in unmask:
+        m[i] = 0
+    n = len(b)
+    D = D or max(2, node.depth_obj() + (1 if root == 2 else 0))
+    q = doc_query(prop, mode, n, D, root, checks=checks, timeout=timeout)
+    q.defines.update({"SK_LEN": n, "SK_BYTES": ",".join(str(x) for x in b), "SK_MASK": ",".join(str(x) for x in m), "WIT_VALID": 1})
+    q.name = "shapedoc.m%d.%s%s" % (mode, node.label(), ("." + name) if name else "")
+    q.array_fs = True
+    q.mem_gb = 2
+    q.tags.update({"shape": node.label(), "family": "H-SHAPE-DOC", "symbolic_positions": [i for i, x in enumerate(m) if not x]})
+    q.group = "h_doc.shape"
+    return q
+
+
+def shape_print_query(propset, pmode, node, root, tcap=48, timeout=900):
+    from . import shapes
+    b, m = shapes.skeleton(node)
+    n = len(b)
+    D = max(2, node.depth_obj() + (1 if root == 2 else 0))
+    q = print_query(propset, pmode, n, D, root, tcap=tcap, timeout=timeout,
+                    extra={"SK_LEN": n, "SK_BYTES": ",".join(str(x) for x in b), "SK_MASK": ",".join(str(x) for x in m), "WIT_VALID": 1})
+    q.name = "shapeprint.p%d.m%d.%s" % (propset, pmode, node.label())
+    q.array_fs = True
+    q.mem_gb = 2
+    q.tags.update({"shape": node.label(), "family": "H-SHAPE-PRINT"})
+    q.group = "h_print.shape.m%d" % pmode
+    return q
+
+
+STD_ASSUME_SHAPE = "shape queries: structure bytes (type, length, BEGIN/END) are concrete per query and enumerated exhaustively up to the stated token count; payload bytes are symbolic"
+
+
 def plan_C06(tier):
     qs = []
     alpha = ("GO", "GA", "N", "LO", "LA", "RAW")
+    # (1) shape-enumerated: every variant script (full / skip / raw / early leave at every position)
     if tier == "quick":
-        cfg = [(3, 6, None, (1, 2)), (4, 5, 5, (2,)), (4, 6, 5, (1,))]
+        qs += shape_variant_queries(6, 1, 6) + shape_variant_queries(6, 2, 5)
+        cfg = [(3, 5, 5, (2,)), (3, 6, 5, (1,))]
     else:
-        cfg = [(3, 4, None, (2,)), (3, 6, None, (1, 2)), (4, 6, None, (1, 2)), (4, 8, 5, (1, 2)), (5, 6, 5, (1, 2)), (5, 8, 5, (1, 2)),
-               (6, 7, 5, (2,))]
+        qs += shape_variant_queries(6, 1, 8) + shape_variant_queries(6, 2, 7)
+        cfg = [(3, 4, None, (2,)), (3, 6, None, (1, 2)), (4, 6, None, (1, 2)), (4, 8, 5, (1, 2)), (5, 6, 5, (1, 2)), (5, 8, 5, (2,))]
+    # (2) arbitrary valid documents of n bytes (every byte symbolic), all stack-consistent scripts
     seen = set()
     for (K, n, J, roots) in cfg:
         for root in roots:
@@ -218,15 +318,225 @@ def plan_C06(tier):
                 seen.add(key)
                 qs.append(script_query(6, s, n, 2, root, J=J if len(s) > 2 else None))
     info = {
-        "rule": "one query per (stack-consistent script, n, root): all valid documents of exactly n bytes symbolic; "
-                "every call result, type, name/value and get_depth compared with the reference cursor.",
-        "bounds": {"configs(K,n,J)": cfg, "D": 2},
-        "outside": ["documents longer than the listed n", "scripts longer than K", "D != 2",
+        "rule": "(1) H-SHAPE: one query per (document shape, traversal script): shapes = all trees up to T tokens, scripts = full "
+                "traversal and every variant with one container skipped / raw-extracted / left early at every position; payload "
+                "bytes symbolic. (2) H-SCRIPT: one query per (stack-consistent script, n, root): ALL valid documents of exactly n "
+                "bytes symbolic. Every call result, type, name/value span and get_depth compared with the reference cursor.",
+        "bounds": {"shape_tokens": {"object_root": 6 if tier == "quick" else 8, "array_root": 5 if tier == "quick" else 7},
+                   "arbitrary_bytes_configs(K,n,J,roots)": cfg, "D": 2},
+        "outside": ["documents with more tokens / bytes than listed", "scripts other than the enumerated families for shapes, or longer than K for arbitrary documents",
                     "for queries with a per-call token cap J: documents in which one call advances over more than J-1 tokens"],
         "assumptions": ["reference cursor model/ref_cursor.h is the specification of navigation",
-                        "documents are valid per model/ref_binson.h (ref_verify == OK)"],
+                        "documents are valid per model/ref_binson.h (ref_verify == OK)", STD_ASSUME_SHAPE],
     }
     return qs, info
+
+
+def plan_C03(tier):
+    qs = []
+    # every token kind and width, full-width symbolic payloads
+    for root, node in token_nodes():
+        from . import shapes
+        qs.append(shape_script_query(3, node, shapes.full_script(node), "full", root))
+    if tier != "quick":
+        for root, node in big_token_nodes():
+            from . import shapes
+            q = shape_script_query(3, node, shapes.full_script(node), "full", root, timeout=1800)
+            q.mem_gb = 6
+            qs.append(q)
+    qs += shape_variant_queries(3, 1, 6 if tier == "quick" else 8, variants=("full",), scalars=("I1", "S1"))
+    qs += shape_variant_queries(3, 2, 5 if tier == "quick" else 7, variants=("full",), scalars=("I1", "S1"))
+    # getter neutrality from an arbitrary state
+    qs.append(step_query(3, 15, 6, 2, checks="func"))
+    # arbitrary valid documents
+    for (s, n, root) in ([(["GA", "N", "N"], 6, 2), (["GO", "N", "N"], 6, 1)] if tier == "quick" else
+                         [(["GA", "N", "N"], 8, 2), (["GO", "N", "N"], 8, 1), (["GA", "N", "GA", "N"], 7, 2), (["GO", "N", "GO", "N"], 8, 1),
+                          (["GA", "N", "N", "N"], 6, 2), (["GO", "N", "GA", "N"], 8, 1)]):
+        qs.append(script_query(3, s, n, 2, root, J=None if len(s) <= 3 and n <= 6 else 6))
+    info = {
+        "rule": "H-SHAPE token queries: one per (token kind x width x root) with the full payload symbolic (all int64 encodings per "
+                "width, all 2^64 double patterns, all string/bytes contents); H-SHAPE full traversals of all trees up to T tokens; "
+                "H-STEP getters from an arbitrary state; H-SCRIPT on all valid n-byte documents.",
+        "bounds": {"token_kinds": "T F I1 I2 I4 I8 D S0-3 B0-3 (+ lengths 127/128 thorough)", "shape_tokens": 6 if tier == "quick" else 8},
+        "outside": ["string/bytes longer than 128 bytes", "documents beyond the listed shapes / sizes"],
+        "assumptions": ["reference tokenizer model/ref_binson.h is the specification", STD_ASSUME_SHAPE],
+    }
+    return qs, info
+
+
+def lookup_shapes():
+    from .shapes import Node
+    out = []
+    # objects with 1..3 fields, names of lengths that make prefixes of each other possible, scalar / container values
+    for names, vals in [([1], ["T"]), ([0, 1], ["T", "I1"]), ([1, 1], ["T", "T"]), ([1, 2], ["S1", "T"]), ([1, 2, 2], ["T", "T", "T"]),
+                        ([0, 1, 2], ["I1", "T", "S1"]), ([1, 1], ["O", "T"]), ([1, 1], ["A", "T"]), ([1, 2], ["T", "O"]), ([2, 2], ["T", "T"])]:
+        kids = []
+        for v in vals:
+            if v == "O":
+                kids.append(Node("O", [Node("T")], [0]))
+            elif v == "A":
+                kids.append(Node("A", [Node("T")], []))
+            else:
+                kids.append(Node(v))
+        out.append(Node("O", kids, names))
+    return out
+
+
+def plan_C07(tier):
+    qs = []
+    scripts = [["GO", "F", "LO"], ["GO", "F", "F", "LO"], ["GO", "F", "N", "LO"], ["GO", "N", "F", "LO"], ["GO", "F", "F", "F", "LO"],
+               ["GO", "FS", "FS", "LO"], ["GO", "FE", "F", "LO"], ["GO", "F", "GO", "LO", "F", "LO"], ["GO", "F", "GA", "LA", "F", "LO"],
+               ["GO", "F", "F", "N", "LO"], ["GO", "NE", "F", "LO"], ["GO", "F", "RAW", "F", "LO"]]
+    if tier == "quick":
+        scripts = scripts[:9]
+    for node in lookup_shapes():
+        for s in scripts:
+            qs.append(shape_script_query(7, node, s, "lookup", 1))
+    # arbitrary valid objects, symbolic names
+    if tier == "quick":
+        qs.append(script_query(7, ["GO", "F", "F"], 8, 1, 1, J=4))
+    else:
+        for s, n, D, J in [(["GO", "F", "F"], 8, 1, 4), (["GO", "F", "F"], 10, 1, 4), (["GO", "F", "N"], 8, 2, 5), (["GO", "F", "F", "F"], 8, 1, 4),
+                           (["GO", "N", "F"], 8, 2, 5), (["GO", "F", "GO"], 8, 2, 5), (["GO", "FE", "F"], 8, 1, 4)]:
+            qs.append(script_query(7, s, n, D, 1, J=J))
+    # the three way compare itself
+    qs.append(leaf_query("cmp_name"))
+    info = {
+        "rule": "H-SHAPE lookups: one query per (object shape, lookup script): field names in the document and the names looked up "
+                "(length 0..2, arbitrary bytes incl. 0x00 and >= 0x80) are symbolic; result, name, type and value compared with the "
+                "reference lookup. H-SCRIPT: all valid n-byte objects. H-LEAF: _cmp_name sign for all contents of lengths <= 4.",
+        "bounds": {"object_shapes": [n.label() for n in lookup_shapes()], "scripts": scripts, "looked_up_name_len": [0, 2]},
+        "outside": ["objects with more than 3 fields", "names longer than 2 bytes in API queries (4 in the compare kernel)", "lookup lengths >= 2^31"],
+        "assumptions": ["lookups are issued inside an object", STD_ASSUME_SHAPE],
+    }
+    return qs, info
+
+
+def mutation_queries(prop, tier):
+    """every single-byte mutation of the structure bytes of every small shape: traversal verdict == verify verdict"""
+    from . import shapes
+    qs = []
+    for root in (1, 2):
+        T = (5 if root == 2 else 6) if tier == "quick" else (6 if root == 2 else 7)
+        for node in shapes.gen_shapes(root, T, ("T", "S1"), 3):
+            b, m = shapes.skeleton(node)
+            tags = [("full", shapes.full_script(node))]
+            cs = shapes.containers(node)
+            if cs:
+                tags.append(("skip", shapes.full_script(node, plan={id(cs[0]): "skip"})))
+            tags.append(("leave@0", shapes.full_script(node, plan={("leave", id(node)): 0})))
+            for tag, s in tags:
+                for i in range(1, len(b) - 1):        # first/last byte are checked by init itself
+                    if not m[i]:
+                        continue
+                    mm = list(m); mm[i] = 0
+                    n = len(b)
+                    D = max(2, node.depth_obj() + (1 if root == 2 else 0))
+                    q = script_query(prop, s, n, D, root, mode=2, J=None, timeout=900,
+                                     extra={"SK_LEN": n, "SK_BYTES": ",".join(str(x) for x in b), "SK_MASK": ",".join(str(x) for x in mm)})
+                    q.name = "mut.p%d.%s.%s.byte%d" % (prop, node.label(), tag, i)
+                    q.array_fs = True
+                    q.mem_gb = 2
+                    q.tags.update({"shape": node.label(), "family": "H-MUT", "mutated_byte": i, "variant": tag})
+                    q.group = "h_script.mut"
+                    qs.append(q)
+    return qs
+
+
+def plan_C08(tier):
+    qs = []
+    # arbitrary bytes, parser-driven scripts that end by leaving the root
+    if tier == "quick":
+        for n in (2, 3, 4, 5, 6):
+            qs.append(script_query(8, ["GO", "LO"], n, 2, 1, mode=2))
+            qs.append(script_query(8, ["GA", "LA"], n, 2, 2, mode=2))
+        more = [(["GA", "N", "LA"], 5, 2), (["GO", "N", "LO"], 6, 1), (["GA", "N", "N", "LA"], 4, 2)]
+    else:
+        for n in range(2, 11):
+            qs.append(script_query(8, ["GO", "LO"], n, 2, 1, mode=2))
+            qs.append(script_query(8, ["GA", "LA"], n, 2, 2, mode=2))
+        more = [(["GA", "N", "LA"], 6, 2), (["GO", "N", "LO"], 7, 1), (["GA", "N", "N", "LA"], 6, 2), (["GO", "N", "N", "LO"], 8, 1),
+                (["GA", "N", "GA", "LA", "LA"], 6, 2), (["GO", "N", "GO", "LO", "LO"], 7, 1), (["GA", "N", "RAW", "LA"], 6, 2),
+                (["GO", "F", "LO"], 7, 1), (["GO", "N", "GA", "LA", "LO"], 7, 1), (["GA", "N", "GO", "LO", "LA"], 6, 2),
+                (["GA", "N", "N", "N", "LA"], 5, 2), (["GO", "F", "F", "LO"], 8, 1)]
+    for s, n, root in more:
+        qs.append(script_query(8, s, n, 2, root, mode=2, J=None if n <= 5 else 6))
+    qs += mutation_queries(8, tier)
+    info = {
+        "rule": "H-SCRIPT in parser-driven mode on ARBITRARY bytes: ops are executed while the parser's own answers make them legal; "
+                "if the traversal ends by leaving the root: (all calls true and error NONE) <=> ref_verify accepts. H-MUT: every shape "
+                "up to T tokens with one structure byte made symbolic (all 256 values) plus symbolic payload, full / skip / "
+                "leave-at-once traversals.",
+        "bounds": {"skip_all_n": [2, 6 if tier == "quick" else 10], "scripts": [(s, n) for s, n, r in more]},
+        "outside": ["documents longer than listed", "mutations of more than one structure byte of a larger shape"],
+        "assumptions": ["reference recogniser is the specification of validity"],
+    }
+    return qs, info
+
+
+def plan_C10(tier):
+    qs = []
+    from . import shapes
+    for root, node in token_nodes():
+        qs.append(shape_script_query(10, node, shapes.full_script(node), "full", root))
+    if tier != "quick":
+        for root, node in big_token_nodes():
+            q = shape_script_query(10, node, shapes.full_script(node), "full", root, timeout=1800)
+            q.mem_gb = 6
+            qs.append(q)
+    qs += shape_variant_queries(10, 1, 6 if tier == "quick" else 8, variants=("full",), scalars=("I1", "S1"))
+    qs += shape_variant_queries(10, 2, 5 if tier == "quick" else 7, variants=("full",), scalars=("I1", "S1"))
+    for (s, n, root) in ([(["GA", "N", "N", "LA"], 4, 2)] if tier == "quick" else
+                         [(["GA", "N", "N", "LA"], 5, 2), (["GO", "N", "N", "LO"], 7, 1), (["GA", "N", "N", "N", "LA"], 6, 2),
+                          (["GA", "N", "GA", "N", "LA", "N", "LA"], 6, 2)]):
+        qs.append(script_query(10, s, n, 2, root, J=None if n <= 5 else 6))
+    info = {
+        "rule": "one query per (shape, its full traversal): each decoded name and value is handed to the matching writer call; "
+                "the writer's buffer must equal the input byte for byte. Token shapes cover every width with full-width symbolic "
+                "payloads; tree shapes cover all nestings up to T tokens; H-SCRIPT covers all valid n-byte documents for a few scripts.",
+        "bounds": {"shape_tokens": 6 if tier == "quick" else 8},
+        "outside": ["documents beyond the listed shapes", "the 220 corpus files (concrete inputs are not part of a solver verdict)"],
+        "assumptions": [STD_ASSUME_SHAPE],
+    }
+    return qs, info
+
+
+def plan_C11(tier):
+    qs = []
+    for root, T in ((1, 6 if tier == "quick" else 8), (2, 5 if tier == "quick" else 7)):
+        qs += shape_variant_queries(11, root, T, variants=("raw",))
+        # parser_to_writer instead of get_raw
+        from . import shapes
+        for node in shapes.gen_shapes(root, T - 1, ("T", "S1"), 3):
+            for c in shapes.containers(node):
+                s = shapes.full_script(node, plan={id(c): "tw"})
+                qs.append(shape_script_query(11, node, s, "tw", root))
+        # raw on a non-container: false and nothing changes
+    from .shapes import Node
+    for root, node in [(2, Node("A", [Node("T"), Node("A", [], [])], [])), (1, Node("O", [Node("I1"), Node("O", [], [])], [0, 1]))]:
+        first = "GA" if root == 2 else "GO"
+        last = "LA" if root == 2 else "LO"
+        qs.append(shape_script_query(11, node, [first, "N", "RAW", "N", "RAW", "N", last], "raw-on-scalar", root))
+        qs.append(shape_script_query(11, node, [first, "N", "TW", "N", "TW", "N", last], "tw-on-scalar", root))
+    cfg = [(["GA", "N", "RAW", "N"], 5, 2)] if tier == "quick" else [(["GA", "N", "RAW", "N"], 8, 2), (["GO", "N", "RAW", "N"], 8, 1),
+                                                                      (["GA", "N", "GA", "N", "RAW"], 6, 2), (["GA", "N", "TW", "N"], 6, 2)]
+    for s, n, root in cfg:
+        qs.append(script_query(11, s, n, 2, root, J=5))
+    info = {
+        "rule": "one query per (shape, traversal with one container raw-extracted / handed to parser_to_writer): span == BEGIN..matching "
+                "END by pointer, span valid standalone per the reference recogniser, writer receives exactly those bytes, the following "
+                "next returns the reference's next element; raw on a scalar returns false and changes nothing.",
+        "bounds": {"shape_tokens": {"object_root": 6 if tier == "quick" else 8, "array_root": 5 if tier == "quick" else 7}},
+        "outside": ["documents beyond the listed shapes / sizes"],
+        "assumptions": [STD_ASSUME_SHAPE],
+    }
+    return qs, info
+
+
+def leaf_query(which, timeout=900):
+    return Query("leaf.%s" % which, "h_leaf.c", defines={"LEAF_" + which.upper(): 1}, sources=(), include_src=True,
+                 unwindset={"_parse_integer.0": 9, "memcmp.0": 6, "_int_pack_size.0": 9}, unwind=12, checks="mem", timeout=timeout,
+                 mem_gb=2, tags={"family": "H-LEAF", "kernel": which}, group="h_leaf")
 
 
 WKIND = {1: "object_begin", 2: "object_end", 3: "array_begin", 4: "array_end", 5: "boolean", 6: "integer", 7: "double",
@@ -403,4 +713,283 @@ def plan_C14(tier):
     return qs, info
 
 
-PLANS = {"C13": plan_C13, "C14": plan_C14, "C04": plan_C04, "C05": plan_C05, "C06": plan_C06, "C01": plan_C01, "C02": plan_C02}
+def plan_C09(tier):
+    qs = []
+    ns = (4,) if tier == "quick" else (4, 8, 12)
+    Ds = (2,) if tier == "quick" else (1, 2, 3)
+    # parser: arbitrary state with an error latched + one call (no loop is entered, so this is cheap for any n)
+    for fn in range(1, 16):
+        if fn in (13, 14):
+            continue                    # reset / verify are allowed to clear the error
+        for n in ns:
+            for D in Ds:
+                qs.append(step_query(9, fn, n, D, checks="func", timeout=900))
+    # a call that raises an error returns false (from an error-free arbitrary state)
+    for fn in ((1, 3, 4, 6) if tier == "quick" else (1, 2, 3, 4, 5, 6, 8, 10, 11)):
+        n, D = (4, 1) if tier == "quick" else (6, 2)
+        if fn in (8, 10, 11):
+            n, D = 4, (1 if tier == "quick" else 2)
+        qs.append(step_query(90, fn, n, D, checks="func", timeout=2400))
+    # base: rejected init leaves the error set, also over later calls
+    for n in ((0, 1, 2, 4) if tier == "quick" else range(0, 9)):
+        for rej in ((1,) if n < 2 else (1, 2)):
+            q = step_query(9, 0, n, 2, checks="func", extra={"REJ": rej})
+            q.name += ".rej%d" % rej
+            q.array_fs = True
+            qs.append(q)
+    # writer
+    for c in ((0, 5, 12) if tier == "quick" else (0, 1, 2, 5, 9, 12, 20)):
+        for fn in range(1, 12):
+            qs.append(writer_query(9, 1, c, k=1, wfn=fn))
+    for c in ((3, 8) if tier == "quick" else range(0, 17)):
+        qs.append(writer_query(9, 2, c, k=3))
+    info = {
+        "rule": "parser: H-STEP from an ARBITRARY state with error_flags != NONE (only the structural part of Inv assumed), one call "
+                "per query: returns false / neutral, error stays set, cursor and depth unchanged; plus from an error-free state: a call "
+                "that raises an error returns false. Writer: H-WSTEP from an arbitrary state with an error set, and H-WSEQ sequences: "
+                "returns false, destination unchanged, counter keeps counting, error stays.",
+        "bounds": {"n": list(ns), "D": list(Ds)},
+        "outside": ["buffers longer than listed (no loop is entered on the latched paths)"],
+        "assumptions": ["valid pointers", "Inv structural part (buffer, size, state, depth <= max_depth)"],
+    }
+    return qs, info
+
+
+def tworun_query(mode, n, D, root, extra=None, timeout=1800, checks="func", name_extra=""):
+    name = "tworun.m%d.n%d.D%d.%s%s" % (mode, n, D, "obj" if root == 1 else "arr", name_extra)
+    defs = {"NB": n, "DEPTH": D, "ROOT": root, "TMODE": mode, "WIT_VALID": 1 if valid_exists(root, n) else 0}
+    defs.update(extra or {})
+    return Query(name, "h_2run.c", defines=defs, sources=("parser", "writer"),
+                 unwindset={"_advance_parsing.0": adv(n), "_parse_integer.0": 9, "memcmp.0": n + 2}, unwind=max(n + 3, 12),
+                 checks=checks, timeout=timeout, mem_gb=2 + 0.6 * n,
+                 tags={"n": n, "D": D, "root": "object" if root == 1 else "array", "family": "H-2RUN"}, group="h_2run.m%d" % mode)
+
+
+def plan_C12(tier):
+    qs = []
+    ns = (0, 1, 2, 3, 5, 6) if tier == "quick" else range(0, 11)
+    for n in ns:
+        for root in (1, 2):
+            if tier == "quick" and n >= 5 and root == 2:
+                continue
+            qs.append(doc_query("C12", 2, n, 2, root))
+    # two parsers with different garbage, same buffer: equal after init (field form)
+    for n in ((0, 1, 2, 4) if tier == "quick" else range(0, 9)):
+        for root in (1, 2):
+            qs.append(tworun_query(1, n, 2, root))
+    # observable form: dirty (abandoned traversal of another document) vs fresh parser, same script afterwards
+    for (n, root) in ([(4, 2)] if tier == "quick" else [(4, 2), (5, 2), (6, 1), (6, 2)]):
+        qs.append(tworun_query(2, n, 2, root, timeout=2400))
+    # reset / verify from any Inv state
+    for fn in (13, 14):
+        for n, D in ([(4, 2)] if tier == "quick" else [(4, 2), (6, 2), (8, 1)]):
+            if fn == 14 and tier == "quick":
+                n, D = 4, 1
+            qs.append(step_query(12, fn, n, D, checks="func", timeout=2400))
+    # writer
+    for c in ((0, 1, 2, 8) if tier == "quick" else range(0, 13)):
+        qs.append(writer_query(12, 4, c))
+    info = {
+        "rule": "H-DOC verify;verify; H-2RUN: two parser objects with DIFFERENT arbitrary prior contents (struct and state array) over the "
+                "same buffer are field-wise equal after init, and a parser reused after an abandoned traversal of another symbolic "
+                "document answers a following script exactly like a fresh one; H-STEP: reset / successful verify from any state == init "
+                "state; writer init/reset from arbitrary prior contents.",
+        "bounds": {"n": list(ns), "D": 2},
+        "outside": ["documents longer than listed", "observable form only for short scripts (K <= 3)"],
+        "assumptions": ["rejected init: only what a later call can observe is compared (error code, depth, cursor, current_state)"],
+    }
+    return qs, info
+
+
+def plan_C16(tier):
+    qs = []
+    ns = (2, 4, 5, 6) if tier == "quick" else range(2, 13)
+    for n in ns:
+        for root in (1, 2):
+            if tier == "quick" and n == 6 and root == 2:
+                continue
+            qs.append(doc_query("C16", 3, n, 2, root))
+    for fn in ((1, 4, 6) if tier == "quick" else (1, 2, 3, 4, 5, 6)):
+        for n, D in ([(4, 2)] if tier == "quick" else [(4, 2), (6, 2), (8, 1)]):
+            qs.append(step_query(16, fn, n, D, checks="func", timeout=2400))
+    for fn in ((8,) if tier == "quick" else (7, 8, 10)):
+        for n, D in ([(4, 1)] if tier == "quick" else [(4, 2), (6, 1)]):
+            qs.append(step_query(16, fn, n, D, checks="func", timeout=3000))
+    # writer: the only loops are the 8-iteration pack loop and memmove
+    for fn in (6, 7, 8):
+        qs.append(writer_query(4, 1, 12, k=1, wfn=fn))
+    info = {
+        "rule": "termination = unwinding assertions: every loop of every query is unwound to a bound linear in n (_advance_parsing n+2, "
+                "lookup outer loop n/2+2, _parse_integer 9) and the solver discharges 'no further iteration'. Linear work: a counting "
+                "callback in the public cb field; tokens reported <= bytes advanced + 2 per call, from every Inv state (H-STEP) and for "
+                "whole-document verify (H-DOC).",
+        "bounds": {"n": list(ns), "D": 2},
+        "outside": ["buffers longer than listed", "CPU-time watchdogs (not part of this technique)"],
+        "assumptions": ["lookups are issued inside an object"],
+    }
+    return qs, info
+
+
+def plan_C17(tier):
+    qs = []
+    al = {"NOALLOC": 1}
+    # (i)+(ii): allocator stubs containing assert(0) and recursion bound 1, over the whole public API from arbitrary states
+    fns = (1, 4, 8, 11, 14, 15) if tier == "quick" else range(1, 16)
+    for fn in fns:
+        n, D = (3, 1) if fn in (8, 11, 12) else (4, 1)
+        if tier != "quick":
+            n, D = (4, 2) if fn in (7, 8, 9, 10, 11, 12) else (6, 2)
+        q = step_query(17, fn, n, D, checks="func", extra=al, timeout=2400)
+        q.name += ".noalloc"
+        q.extra_flags += []
+        qs.append(q)
+    for fn in range(1, 12):
+        q = writer_query(17, 1, 12, k=1, wfn=fn, extra=al)
+        q.name += ".noalloc"
+        qs.append(q)
+    q = print_query(17, 1, 2, 2, 1, extra=al)
+    q.name += ".noalloc"
+    qs.append(q)
+    # (iii) non-interference between independent objects
+    for n, root in ([(4, 2)] if tier == "quick" else [(4, 2), (5, 1), (6, 2)]):
+        qs.append(tworun_query(3, n, 2, root, timeout=2400))
+    qs.append(tworun_query(4, 4, 2, 1))
+    # side condition read from the goto binary: no writable static-lifetime symbol in the two units
+    qs.append(Query("symtab.no_writable_statics", "h_symtab.c", defines={}, sources=("parser", "writer"), with_print=True,
+                    checks="func", witness=False, timeout=120, tags={"family": "SYMTAB", "kind": "side condition, not a solver verdict"},
+                    group="symtab"))
+    info = {
+        "level": "other",
+        "claim_text": "Solver-decided for all inputs inside the bounds: (i) malloc/calloc/realloc/free/alloca/strdup stubs containing "
+                      "assert(0) are unreachable from every public parser/writer function; (ii) no library function is re-entered "
+                      "(recursion unwinding assertion with bound 1); (iii) an arbitrary operation on object A between two operations on "
+                      "object B never changes B's results or memory. Read from the goto binary as a side condition: no writable "
+                      "static-lifetime symbol is defined by binson_parser.c / binson_writer.c. Not decidable by a source-level solver and "
+                      "therefore outside: per-build stack-usage numbers (gcc -O0/-O2/-Os), VLAs introduced by a compiler, a static that "
+                      "is written but never read.",
+        "rule": "one query per public function (H-STEP / H-WSTEP / H-PRINT harness with allocator stubs) + H-2RUN non-interference queries "
+                "+ one symbol-table side condition.",
+        "bounds": {"functions": [FN_NAMES[f] for f in fns], "n": [3, 6]},
+        "outside": ["object-code facts: stack usage per build configuration, compiler-introduced VLAs/allocation"],
+        "assumptions": ["CBMC's call graph of the C source is the call graph"],
+    }
+    return qs, info
+
+
+def plan_C18(tier):
+    qs = []
+    archs = (None, "uchar", "arm")
+    ns = (4, 5) if tier == "quick" else (4, 5, 6, 7, 8)
+    for arch in archs:
+        for n in ns:
+            for root in (1, 2):
+                if tier == "quick" and (n, root) not in ((5, 1), (4, 2)):
+                    continue
+                q = doc_query("C18", 1, n, 2, root, checks="mem", arch=arch, timeout=2400)
+                qs.append(q)
+        # decode of every width, names with bytes >= 0x80, writer
+        from . import shapes
+        for root, node in token_nodes():
+            if tier == "quick" and node.children[0].kind not in ("I2", "I4", "I8", "D", "S2"):
+                continue
+            q = shape_script_query(3, node, shapes.full_script(node), "full", root, checks="mem")
+            q.arch = arch
+            q.name += "." + (arch or "lp64")
+            qs.append(q)
+        for node in lookup_shapes()[:(3 if tier == "quick" else 10)]:
+            q = shape_script_query(7, node, ["GO", "F", "F", "LO"], "lookup", 1, checks="mem")
+            q.arch = arch
+            q.name += "." + (arch or "lp64")
+            qs.append(q)
+        for fn in (6, 7, 8, 9):
+            q = writer_query(5, 1, 12, k=1, wfn=fn, arch=arch)
+            qs.append(q)
+        q = writer_query(4, 2, 6, k=3, arch=arch)
+        qs.append(q)
+        q = leaf_query("cmp_name"); q.arch = arch; q.name += "." + (arch or "lp64"); qs.append(q)
+        q = leaf_query("parse_integer"); q.arch = arch; q.name += "." + (arch or "lp64"); qs.append(q)
+    qs.append(Query("archsanity.arm", "h_arch.c", defines={}, sources=(), arch="arm", checks="func", witness=False, timeout=60,
+                    tags={"family": "H-CFG", "kind": "data model sanity: sizeof(size_t)==4, sizeof(int64_t)==8, plain char unsigned"}, group="h_arch"))
+    info = {
+        "rule": "H-CFG: the differential harnesses (verify == reference recogniser, decode of every width, lookups with symbolic names, "
+                "writer == reference encoder, name compare / integer kernels) are decided under three data models - LP64/signed char, "
+                "LP64/unsigned char (-funsigned-char), ILP32/unsigned char (goto-cc -m32 -funsigned-char with freestanding stub headers: the Cortex-M data model) - against the SAME "
+                "reference, with signed-overflow, shift, pointer and bounds checks on: no undefined behaviour on any reachable path and "
+                "identical observables across data models.",
+        "bounds": {"n": list(ns), "data_models": ["x86_64 LP64 signed char", "x86_64 LP64 unsigned char", "ILP32 unsigned char"]},
+        "outside": ["real gcc/clang code generation at -O0/-O2/-Os and sanitizer builds (the inference 'no UB => conforming compilers agree' "
+                    "assumes compiler correctness)", "--conversion-check findings are advisory (gcc and clang define the conversion as modular)"],
+        "assumptions": ["CBMC's C semantics for each data model"],
+    }
+    return qs, info
+
+
+def plan_C01_full(tier):
+    qs, info = plan_C01(tier)
+    # API-only: arbitrary bytes, every op executed unconditionally, all memory checks, from a garbage struct through init
+    scripts = [(["GO", "N", "LA"], 4, 1), (["GA", "N", "LO"], 4, 2), (["N", "LO"], 3, 1), (["GO", "RAW", "N"], 4, 1)] if tier == "quick" else \
+              [(["GO", "N", "LA"], 6, 1), (["GA", "N", "LO"], 6, 2), (["N", "N", "LO"], 5, 1), (["GO", "RAW", "N"], 5, 1), (["GA", "GO", "N", "LA"], 5, 2),
+               (["GO", "N", "GO", "N"], 7, 1), (["GA", "N", "GA", "LA", "N"], 6, 2), (["GO", "F", "N", "LO"], 6, 1), (["LA", "N"], 4, 2), (["GO", "N", "RAW", "LO"], 6, 1),
+               (["GO", "GO", "GO"], 6, 1), (["GA", "N", "RAW", "RAW"], 5, 2)]
+    for s, n, root in scripts:
+        for D in ((1, 2) if tier != "quick" else (1,)):
+            q = script_query(1, s, n, D, root, mode=3, J=None, checks="mem", timeout=3000)
+            qs.append(q)
+    # depth limit: nesting deeper than the state array, D = 1..3, structure concrete, all memory checks
+    from .shapes import Node
+    from . import shapes
+    for D in (1, 2, 3):
+        node = Node("T")
+        for k in range(D + 1):
+            node = Node("O", [node], [0])
+        s = ["GO"] + ["N", "GO"] * (D + 1)
+        q = shape_script_query(1, node, s, "too-deep", 1, D=D, checks="mem", extra={"MODE": 3})
+        q.name += ".D%d" % D
+        qs.append(q)
+        node = Node("T")
+        for k in range(D):
+            node = Node("O", [node], [0])
+        node = Node("A", [node], [])
+        s = ["GA"] + ["N", "GO"] * D
+        q = shape_script_query(1, node, s, "too-deep", 2, D=D, checks="mem", extra={"MODE": 3})
+        q.name += ".D%d" % D
+        qs.append(q)
+    qs.append(leaf_query("check_boundary"))
+    info["rule"] += " H-SCRIPT (mode ANY): arbitrary bytes, ops executed unconditionally, all memory checks. H-LEAF: _check_boundary for all 2^192 triples."
+    return qs, info
+
+
+def plan_C02_full(tier):
+    qs, info = plan_C02(tier)
+    from .shapes import Node
+    # token level: type byte concrete, everything else (payload, length bytes) symbolic: shortest-form rule, length range
+    for code in ("I1", "I2", "I4", "I8", "D", "S0", "B0"):
+        for root in (1, 2):
+            node = Node("O", [Node(code)], [0]) if root == 1 else Node("A", [Node(code)], [])
+            qs.append(shape_doc_query("C02", 1, node, root, name="tok"))
+    # truncated-length trick: length field symbolic (1/2/4 bytes), 6 trailing symbolic bytes
+    for base, w in ((0x14, 1), (0x15, 2), (0x16, 4), (0x18, 1), (0x19, 2), (0x1a, 4)):
+        if tier == "quick" and w == 2:
+            continue
+        n = 1 + 1 + w + 4 + 1
+        b = [0x42, base] + [0] * (w + 4) + [0x43]
+        m = [1, 1] + [0] * (w + 4) + [1]
+        q = doc_query("C02", 1, n, 1, 2, timeout=1800)
+        q.defines.update({"SK_LEN": n, "SK_BYTES": ",".join(str(x) for x in b), "SK_MASK": ",".join(str(x) for x in m), "WIT_VALID": 1})
+        q.name = "lenfield.0x%02x" % base
+        q.array_fs = True
+        q.tags.update({"family": "H-TOKEN", "what": "length field of %d symbolic bytes + 4 symbolic trailing bytes" % w})
+        qs.append(q)
+    qs.append(leaf_query("parse_integer"))
+    if tier != "quick":
+        # D = 10 (the default depth) on small buffers
+        for n in (4, 6):
+            for root in (1, 2):
+                qs.append(doc_query("C02", 1, n, 10, root, timeout=3000))
+    info["rule"] += " H-TOKEN: type byte concrete, payload and length bytes symbolic (shortest-form rule for all encodings, lengths < 0, beyond the buffer)."
+    return qs, info
+
+
+PLANS = {"C01": plan_C01_full, "C02": plan_C02_full, "C03": plan_C03, "C04": plan_C04, "C05": plan_C05, "C06": plan_C06,
+         "C07": plan_C07, "C08": plan_C08, "C09": plan_C09, "C10": plan_C10, "C11": plan_C11, "C12": plan_C12, "C13": plan_C13,
+         "C14": plan_C14, "C16": plan_C16, "C17": plan_C17, "C18": plan_C18}
